@@ -13,7 +13,7 @@ EXPLANATION = ("sums compared with the Gallina model (multifit: float capacity s
                "against OPT: greedy/kk largest <= (4/3 - 1/(3k)) OPT, greedy smallest >= (3k-1)/(4k-2) OPTmin, multifit largest <= (1.22 + 2^-it) OPT, gap <= largest item, "
                "round-robin sums non-increasing and cardinalities within one. Proved for all inputs: lpt_ratio_43, the gaps, the round-robin shape; the other constants are tested only.")
 ASSUMPTIONS = ["non-negative integers, total below 2^53; k >= 2 for the ratio bounds"]
-OPEN_STATEMENTS = ["multifit_ratio_122 : largest(multifit) <= (1.22 + 2^-iterations) * OPT -- tested; proved with the constant 5/4 and an explicit rounding slack ((5/4 + 2^-it) OPT + 19/4, multifit_ratio_54), not with 1.22 (Coffman, Garey, Johnson 1978)"]
+OPEN_STATEMENTS = ["multifit_ratio_122 : largest(multifit) <= (1.22 + 2^-iterations) * OPT -- tested; proved with the constant 11/9 = 1.2222 and an explicit rounding slack ((11/9 + 2^-it) OPT + 44/9, multifit_ratio_119), not with 1.22 (Coffman, Garey, Johnson 1978)"]
 CASE_TIMEOUT = 60
 
 
